@@ -13,6 +13,10 @@ Trees  == 0..(NT - 1)
 KAwake == -(1 + MINAWAKE)
 World  == -1          \* endpoint of a contact / equality: static body
 Mocap  == -2          \* endpoint of a contact / equality: mocap body (counts as awake)
+Carried  == -3        \* jointless child body of a mocap body: moves with it, counts as awake
+Carried2 == -4        \* jointless grandchild of a mocap body
+\* classification of a body by mj_updateSleep: a dof-less body is "static" unless its ROOT is a mocap body
+BodyClass(z) == IF z \in 0..(NT - 1) THEN "dynamic" ELSE IF z \in {Mocap, Carried, Carried2} THEN "mocap-carried" ELSE "static"
 NoTree == -1
 
 SetMin(S) == CHOOSE x \in S : \A y \in S : x <= y
